@@ -75,7 +75,9 @@ def _poke(v):
     if isinstance(a0, list) and a0:
         a0[0] = 'poked'
     return ref_compare(v, 'poked') == 0
-MATCHER_PRELUDE = '\n'.join('function %s(vv):\n    %s\nendfunction' % (n, body) for n, (body, _) in sorted(MATCHERS.items()))
+COMPARATORS = {'cmpDiff': ('return aa - bb', lambda a, b: a - b), 'cmpDesc': ('return bb - aa', lambda a, b: b - a),
+               'cmpHalf': ('return (aa - bb) / 2', lambda a, b: (a - b) / 2)}
+MATCHER_PRELUDE = '\n'.join('function %s(aa, bb):\n    %s\nendfunction' % (n, body) for n, (body, _) in sorted(COMPARATORS.items())) + '\n' + '\n'.join('function %s(vv):\n    %s\nendfunction' % (n, body) for n, (body, _) in sorted(MATCHERS.items()))
 
 
 class _Matcher:
@@ -85,6 +87,8 @@ class _Matcher:
         self.name = name
 
     def __call__(self, args, options=None):
+        if self.name in COMPARATORS:
+            return COMPARATORS[self.name][1](args[0], args[1])
         if self.name in LIBRARY_MATCHERS:
             # a library function as the match function: called with the element as its only argument (a fresh argument list per element); what
             # the search makes of a match function that fails is not documented
@@ -319,6 +323,16 @@ class Machine(RuleBasedStateMachine):
             texts.append(a[0])
             values.append(a[1])
         matcher = None
+        if name == 'arraySort' and len(texts) == 1 and rnd.random() < 0.5:
+            # a comparison function (the difference of two numbers - a fraction when they are less than 1 apart) over an array of numbers
+            xs = [rnd.choice([2.5, 2.25, 2.0, 3.0, 2.75, 9.0, 0.5, 0.75, -1.5, 2.0, 100.0, 2.125]) for _ in range(rnd.randint(2, 7))]
+            if isinstance(values[0], list) and len(values[0]) >= 2 and all(is_number(x) and not isinstance(x, bool) for x in values[0]) and rnd.random() < 0.5:
+                pass
+            else:
+                texts[0], values[0] = 'arrayNew(%s)' % ', '.join(lit(x) for x in xs), list(xs)
+            matcher = rnd.choice(sorted(COMPARATORS))
+            texts.append(matcher)
+            values.append(_Matcher(matcher))
         if name in ('arrayIndexOf', 'arrayLastIndexOf') and len(texts) >= 2 and rnd.random() < 0.4:
             matcher = rnd.choice(sorted(MATCHERS) + ['mPoke', 'mPoke'] + LIBRARY_MATCHERS[:3] + [rnd.choice(LIBRARY_MATCHERS)])
             texts[1], values[1] = matcher, _Matcher(matcher)
